@@ -10,7 +10,7 @@ ASSUMES = ASSUMES_COMMON
 
 
 def configs(tier, seed):
-    return batch_configs(tier, seed, 50, 400, 12 if tier == "quick" else 25, OPTS, SCHEDULERS)
+    return systematic_configs(SCHEDULERS, family="relations") + batch_configs(tier, seed, 50, 400, 12 if tier == "quick" else 25, OPTS, SCHEDULERS)
 
 
 def run(cfg, ctx):
